@@ -59,6 +59,16 @@ class Exec(ExecExpr):
                             isinstance(dict_view(b2).ty, Ty.TDict):
                         b2 = dict_view(b2)
                     k = prim_kind(b2.ty)
+                    if k is None and isinstance(b2.ty, Ty.TAny) and ('str', n.func.attr) in BUILTIN_METHODS and \
+                            ('list', n.func.attr) not in BUILTIN_METHODS and ('dict', n.func.attr) not in BUILTIN_METHODS:
+                        # unknown static type, str-only method: a str at run time, otherwise AttributeError
+                        # (A-PY: such a value is not a bytes object)
+                        isstr, other = self.fork(c2, is_str(b2.term), None)
+                        if other is not None:
+                            raises.append(self.raised(other, 'builtins:AttributeError'))
+                        if isstr is None:
+                            continue
+                        c2, b2, k = isstr, SV(b2.term, Ty.STR), 'str'
                     if k is not None:
                         callee_states.append((c2, ('method', k, b2, n.func.attr)))
                     else:
